@@ -28,6 +28,11 @@
 (*          persists every row passing, COMMITS when the stream ends       *)
 (*   sort   buffer-then-emit (sort_rows, join target ...)                  *)
 (*   fin    finalizer: callback when the stream has ended                  *)
+(*   dup    duplicate(): tees the FIRST resource into a store while it     *)
+(*          streams and emits the copy right after it - the copy holds     *)
+(*          whatever had streamed when it is asked for (why del must drain)*)
+(*   cat    concatenate(all): one output resource chaining every upstream  *)
+(*          resource; asks below for exactly the resources it was promised *)
 (*   fault  a step that raises: in its package phase, at the first row, or *)
 (*          at end of stream; exception class gen / cast / uniq            *)
 (***************************************************************************)
@@ -46,6 +51,8 @@ SrcRowsSmall == {<<>>, <<1>>, <<1, 2, 3>>}      \* cfg: SrcRows <- SrcRowsSmall
 SrcRowsLong == {<<1>>, <<1, 2, 3, 4, 5, 6>>}    \* longer than Sample and Ahead, for the read-ahead bound
 FaultAt == {"pkg", "row", "end"}
 FaultCls == {"gen", "cast", "uniq"}
+DelDrains == TRUE       \* delete_resource reads the resource it drops to the end; cfg: DelDrains <- DelSkips shows why it must
+DelSkips == FALSE
 
 \* a row: [s |-> index of the source step, k |-> position in that source, v |-> value]
 MkRows(i, vs) == [k \in 1..Len(vs) |-> [s |-> i, k |-> k, v |-> vs[k]]]
@@ -54,13 +61,15 @@ MkRows(i, vs) == [k \in 1..Len(vs) |-> [s |-> i, k |-> k, v |-> vs[k]]]
 \* Step-by-step (materialised) meaning of a program: the reference of C01
 MapRow(r) == [r EXCEPT !.v = @ + 10]
 Keep(r) == r.v % 2 = 1
-SortDesc(s) == SortSeq(s, LAMBDA a, b : a.v > b.v)
+SortDesc(s) == Reverse(SortSeq(s, LAMBDA a, b : a.v < b.v))     \* sort_rows(reverse=True): exactly the reverse of the stable ascending order
 ApplyStep(i, st, pkg) ==
    CASE st.kind = "src"    -> Append(pkg, MkRows(i, st.rows))
      [] st.kind = "map"    -> [j \in 1..Len(pkg) |-> [n \in 1..Len(pkg[j]) |-> MapRow(pkg[j][n])]]
      [] st.kind = "filter" -> [j \in 1..Len(pkg) |-> SelectSeq(pkg[j], Keep)]
      [] st.kind = "del"    -> Tail(pkg)
      [] st.kind = "sort"   -> [j \in 1..Len(pkg) |-> SortDesc(pkg[j])]
+     [] st.kind = "dup"    -> <<pkg[1], pkg[1]>> \o Tail(pkg)
+     [] st.kind = "cat"    -> <<FlattenSeq(pkg)>>
      [] OTHER              -> pkg                      \* obs, fin, fault (when it does not fire)
 RECURSIVE EvalFrom(_, _, _)
 EvalFrom(steps, i, pkg) == IF i > Len(steps) THEN pkg ELSE EvalFrom(steps, i + 1, ApplyStep(i, steps[i], pkg))
@@ -69,7 +78,7 @@ EvalPrefix(steps, n) == EvalFrom(SubSeq(steps, 1, n), 1, <<>>)
 NumResAfter(steps, n) == Len(EvalPrefix(steps, n))
 
 \* well-typed programs: del needs a resource to delete
-WellTyped(steps) == \A i \in 1..Len(steps) : steps[i].kind = "del" => NumResAfter(steps, i - 1) >= 1
+WellTyped(steps) == \A i \in 1..Len(steps) : steps[i].kind \in {"del", "dup", "cat"} => NumResAfter(steps, i - 1) >= 1
 
 StepSet == [kind : (Kinds \ {"src", "fault"})]
            \cup (IF "src" \in Kinds THEN [kind : {"src"}, rows : SrcRows] ELSE {})
@@ -166,6 +175,9 @@ StepDown(i) ==
       IF req[1] = "NextRes" THEN
          IF s.kind = "src" /\ l.st = "own"               \* own resource already supplied: the stream is over
          THEN /\ ctl' = Up(i + 1, <<"EndAll">>) /\ UNCHANGED <<loc, pulled>>
+         ELSE IF s.kind = "dup" /\ l.st \in {"saving", "copy"}      \* the copy comes next, out of the store: nothing is asked below
+         THEN /\ loc' = [loc EXCEPT ![i].st = "emit", ![i].k = @ + 1, ![i].pos = 0]
+              /\ ctl' = Up(i + 1, <<"Res", l.k + 1>>) /\ UNCHANGED pulled
          ELSE /\ ctl' = Down(i - 1, <<"NextRes">>) /\ UNCHANGED <<loc, pulled>>
       ELSE \* NextRow(k) of my k-th output resource
          IF s.kind = "src" /\ l.st = "own" /\ req[2] = l.k THEN
@@ -174,6 +186,12 @@ StepDown(i) ==
                    /\ pulled' = [pulled EXCEPT ![i] = MaxNat(@, MinNat(Len(s.rows), MaxNat(Ahead, l.pos + 1)))]
                    /\ ctl' = Up(i + 1, <<"Row", req[2], MkRows(i, s.rows)[l.pos + 1]>>)
               ELSE /\ ctl' = Up(i + 1, <<"EndRes", req[2]>>) /\ UNCHANGED <<loc, pulled>>
+         ELSE IF s.kind = "dup" /\ l.st = "emit" /\ req[2] = l.k THEN
+              IF l.pos < Len(l.buf)
+              THEN /\ loc' = [loc EXCEPT ![i].pos = @ + 1]
+                   /\ ctl' = Up(i + 1, <<"Row", req[2], l.buf[l.pos + 1]>>) /\ UNCHANGED pulled
+              ELSE /\ loc' = [loc EXCEPT ![i].st = "after"]
+                   /\ ctl' = Up(i + 1, <<"EndRes", req[2]>>) /\ UNCHANGED pulled
          ELSE IF s.kind = "sort" /\ l.st = "emit" THEN
               IF l.pos < Len(l.buf)
               THEN /\ loc' = [loc EXCEPT ![i].pos = @ + 1]
@@ -194,10 +212,16 @@ StepUp(i) ==
       CASE it[1] = "Exc" -> /\ ctl' = Up(i + 1, <<"Exc">>) /\ UNCHANGED <<loc, exc>>     \* unwinds through every generator; nobody commits
         [] it[1] = "Res" ->
              IF s.kind = "del" /\ it[2] = 1              \* the dropped resource: drain it now, inside this demand
-             THEN /\ loc' = [loc EXCEPT ![i].j = it[2], ![i].dropping = TRUE]
+             THEN IF DelDrains
+                  THEN /\ loc' = [loc EXCEPT ![i].j = it[2], ![i].dropping = TRUE]
+                       /\ ctl' = Down(i - 1, <<"NextRow", it[2]>>) /\ UNCHANGED exc
+                  ELSE /\ ctl' = Down(i - 1, <<"NextRes">>) /\ UNCHANGED <<loc, exc>>      \* (deviation) skip it unread
+             ELSE IF s.kind = "cat" /\ l.k = 1           \* a further resource to chain: keep pulling rows, nothing is supplied
+             THEN /\ loc' = [loc EXCEPT ![i].j = it[2]]
                   /\ ctl' = Down(i - 1, <<"NextRow", it[2]>>) /\ UNCHANGED exc
              ELSE /\ loc' = [loc EXCEPT ![i].j = it[2], ![i].k = @ + 1,
-                                        ![i].persisted = IF s.kind = "obs" THEN Append(@, <<>>) ELSE @]
+                                        ![i].persisted = IF s.kind = "obs" THEN Append(@, <<>>) ELSE @,
+                                        ![i].st = IF s.kind = "dup" /\ it[2] = 1 THEN "saving" ELSE @]
                   /\ ctl' = Up(i + 1, <<"Res", l.k + 1>>) /\ UNCHANGED exc
         [] it[1] = "Row" ->
              IF l.dropping THEN /\ ctl' = Down(i - 1, <<"NextRow", l.j>>) /\ UNCHANGED <<loc, exc>>
@@ -208,6 +232,8 @@ StepUp(i) ==
                                             /\ ctl' = Up(i + 1, <<"Row", l.k, it[3]>>) /\ UNCHANGED exc
                     [] s.kind = "sort"   -> /\ loc' = [loc EXCEPT ![i].buf = Append(@, it[3])]
                                             /\ ctl' = Down(i - 1, <<"NextRow", l.j>>) /\ UNCHANGED exc
+                    [] s.kind = "dup" /\ l.st = "saving" -> /\ loc' = [loc EXCEPT ![i].buf = Append(@, it[3])]
+                                                             /\ ctl' = Up(i + 1, <<"Row", l.k, it[3]>>) /\ UNCHANGED exc
                     [] s.kind = "fault" /\ s.at = "row" -> Raise(i)
                     [] OTHER             -> /\ ctl' = Up(i + 1, <<"Row", l.k, it[3]>>) /\ UNCHANGED <<loc, exc>>
         [] it[1] = "EndRes" ->
@@ -215,6 +241,10 @@ StepUp(i) ==
                                 /\ ctl' = Down(i - 1, <<"NextRes">>) /\ UNCHANGED exc
              ELSE IF s.kind = "sort" THEN /\ loc' = [loc EXCEPT ![i].st = "emit", ![i].pos = 0]
                                           /\ ctl' = Down(i, <<"NextRow", l.k>>) /\ UNCHANGED exc      \* re-enter: now emit
+             ELSE IF s.kind = "dup" /\ l.st = "saving" THEN /\ loc' = [loc EXCEPT ![i].st = "copy"]
+                                                             /\ ctl' = Up(i + 1, <<"EndRes", l.k>>) /\ UNCHANGED exc
+             ELSE IF s.kind = "cat" /\ it[2] < NumResAfter(steps, i - 1)        \* chain the next promised resource
+             THEN /\ ctl' = Down(i - 1, <<"NextRes">>) /\ UNCHANGED <<loc, exc>>
              ELSE /\ ctl' = Up(i + 1, <<"EndRes", l.k>>) /\ UNCHANGED <<loc, exc>>
         [] it[1] = "EndAll" ->
              IF s.kind = "src" THEN /\ loc' = [loc EXCEPT ![i].st = "own", ![i].k = @ + 1, ![i].pos = 0]
@@ -254,7 +284,7 @@ FinalizerAtEnd == \A i \in 1..N : (steps[i].kind = "fin" /\ loc[i].calls = 1) =>
                      \A j \in 1..(i-1) : steps[j].kind = "obs" => loc[j].committed
 
 \* C06: without a buffering step the read-ahead never exceeds the inference sample
-Buffering == \E i \in 1..N : steps[i].kind = "sort"
+Buffering == \E i \in 1..N : steps[i].kind \in {"sort", "dup"}
 LookBound == MaxNat(MaxNat(Sample, Ahead), 1) - 1
 BoundedLookahead == ~Buffering => maxLook <= LookBound
 LookBoundEvenWhenBuffering == maxLook <= LookBound      \* NOT a property: violated as soon as a sort is present (non-vacuity check)
